@@ -19,7 +19,20 @@ def worlds(chk, drv, n_worlds, **gen_kw):
             chk.note("world-rejected-by-python")
             continue
         made += 1
+        for c in w["classes"]:
+            for k, v in (c.get("features") or {}).items():
+                chk.note("class-feature:" + k + ("=" + str(v) if k in ("syntax", "eq") else ""))
+            for f in c["fields"]:
+                if f.get("inherited"):
+                    continue
+                for k in ("explicit_alias", "takes_self"):
+                    if f.get(k):
+                        chk.note("class-feature:" + k)
+                if f.get("validator"):
+                    chk.note("class-feature:validator:" + f["validator"] + (":post-init" if f.get("validator_in") else ":field"))
         yield G, S, w
+        for k, v in S.stats.items():
+            chk.hist[k] += v
 
 
 def typed_values(chk, G, S, w, n_types=5, n_values=2, any_stable=True, max_depth=3):
@@ -38,6 +51,31 @@ def typed_values(chk, G, S, w, n_types=5, n_values=2, any_stable=True, max_depth
                 chk.unmodelled += 1
                 continue
             yield ty, x, xv
+
+
+REJECTED_BY = {"mod3": [("i", 3), ("i", 0), ("s", "12")], "noz": [("s", "zz"), ("s", "z")],
+               "len2": [("l", [("i", 1), ("i", 2)]), ("t", [("s", "b"), ("s", "c")])]}
+
+
+def validator_payloads(chk, G, S, w, ty, base_abs):
+    """valid payload of a class position with the value under a validated attribute's key replaced by a value OF THE
+    DECLARED TYPE (or coercible to it) that the attribute's validator / post-init check rejects: the call must raise"""
+    t = gen.strip_wraps(ty)
+    if isinstance(t, str) or t[0] != "cls" or base_abs[0] != "d":
+        return
+    for f in w["classes"][t[1]]["fields"]:
+        if not f.get("validator") or not f["init"]:
+            continue
+        for bad in REJECTED_BY[f["validator"]]:
+            kvs = [(k, bad if k == ("s", f["name"]) else v) for k, v in base_abs[1]]
+            if not any(k == ("s", f["name"]) for k, _ in kvs):
+                kvs.append((("s", f["name"]), bad))
+            try:
+                pv, p2 = S.realise(("d", kvs))
+            except Exception:
+                continue
+            if not gen.lookalike_hazard(p2):
+                yield "validator-rejected-value", p2, pv
 
 
 def payloads(chk, G, S, w, base_abs, n_mut=2, n_junk=1):
